@@ -235,6 +235,10 @@ class Fxp():
 
         # store the value
         self.set_val(val, raw=raw)
+        if val is None:
+            # no value was given: the placeholder zero (for a scaled object: the code of (0 - bias) / scale) is not an input,
+            # and whatever its storing raised is not an event of this object
+            self.reset()
         if dtype is not None and complex_flag and self.vdtype != complex:
             # a format declared complex by its dtype string holds complex values: a real value has a zero imaginary part
             self.set_val(np.asarray(self.val).astype(complex), raw=True, vdtype=complex)
